@@ -13,6 +13,8 @@ C04 — property theorems: the ARPA address codec of `netutil/reversed.go`.
   `in-addr.arpa` one.
 * `decode_encode`: under the contract IDNA-1, every ASCII case variant of the canonical name
   of every address, with or without one trailing dot, decodes to that address.
+* `decode_canon`, `canonPTR_injective`: the decoder inverts the encoder on the canonical name
+  itself, so distinct canonical addresses have distinct names (the bijection of the title).
 * `ipFromReversedAddr_total`: no input and no `idna.ToASCII` make the decoder panic; every
   rejection is an ARPA `*AddrError` carrying the trimmed input.
 -/
@@ -195,6 +197,30 @@ theorem decode_encode (toASCII : Bytes → Option Bytes)
       rw [← hlab, ptr6_length, hl]; decide
     rw [fromRev_of_valid toASCII _ hvalid, htrim]
     exact body_ptr6 v b hl hb hv'
+
+/-- Under IDNA-1 the decoder inverts the encoder on the canonical name itself (the instance
+`v = canonPTR a`, no dot, of `decode_encode`; needs `canonPTR_lower`: a canonical name
+contains no upper-case letter). -/
+theorem decode_canon (toASCII : Bytes → Option Bytes)
+    (hT : ∀ s, (∀ b ∈ s, b < 128) → NoXnLabel s → toASCII s = some s)
+    (a : Addr) (hwf : WF a) (hm : ∀ b z, a = .v6 b z → z = [] ∧ ¬ is4in6 b) :
+    ipFromReversedAddr toASCII (canonPTR a) = .ok (.ok a) := by
+  have := decode_encode toASCII hT a hwf hm (canonPTR a) (canonPTR_lower a) [] (Or.inl rfl)
+  simpa using this
+
+/-- Injectivity of the encoder on canonical addresses: two well-formed addresses (IPv4, or
+zone-less IPv6 that is not IPv4-mapped) with the same canonical PTR name are equal — with
+`decode_canon` and `accepts_only_canon_partial`, the codec is a bijection between those
+addresses and the names `IPFromReversedAddr` maps back to them. -/
+theorem canonPTR_injective (a a' : Addr) (hwf : WF a) (hwf' : WF a')
+    (hm : ∀ b z, a = .v6 b z → z = [] ∧ ¬ is4in6 b)
+    (hm' : ∀ b z, a' = .v6 b z → z = [] ∧ ¬ is4in6 b)
+    (h : canonPTR a = canonPTR a') : a = a' := by
+  have h1 := decode_canon some (fun _ _ _ => rfl) a hwf hm
+  have h2 := decode_canon some (fun _ _ _ => rfl) a' hwf' hm'
+  rw [h] at h1
+  rw [h1] at h2
+  injection h2 with h2; injection h2
 
 /-! ### 4. totality and the shape of rejections -/
 
